@@ -1,5 +1,7 @@
 //! Verification harness for watchexec: property-based testing and fuzzing.
 pub mod engine;
+pub mod gitmodel;
+pub mod patgen;
 pub mod jobdrive;
 pub mod jobgen;
 pub mod jobmodel;
